@@ -41,6 +41,18 @@ CLAIMED = {
             "Does not decide k+G periodicity or numerical gauge invariance of the formulas.",
             "Trusted: Python ast, E0 index (MRO, self-attribute stores incl. setattr). getattr with computed names is not followed.",
             "DESIGN.md §3 C04"),
+    "C08": ("abstract interpretation of the formula classes over a Z2xZ2 symmetry-grade lattice (a type system for TR/inversion "
+            "parity): homogeneity of sums and declared-vs-inferred comparison for every consumed declaration",
+            "other",
+            "Decides, for every inferable formula used by a calculator (61 formula classes, ~190 einsum/sum terms, 21 consumed "
+            "declarations, the covariant() transform plumbing, SHC / shift-current / spin-velocity array code, 4 FormulaSum "
+            "literals), that the declared time-reversal and inversion parity is the parity of the expression the code evaluates - "
+            "for all models and k-points, including tensor components that vanish in every test system. Does not decide formulas "
+            "whose transform permutes tensor axes (optical conductivity, injection current, SDCT), nor grade-neutral errors (wrong "
+            "real coefficients).",
+            "Trusted: Python ast, wbstatic.grading transfer rules, the 17-row base parity table of the covariant matrices "
+            "(the only physics put in by hand).",
+            "DESIGN.md §3 C08"),
     "C11": ("order-taint dataflow from directory listings to positional uses; f-string pattern agreement with "
             "constant-evaluated index parser; CFG dominance rules on run()'s restart bookkeeping",
             "other",
@@ -94,6 +106,16 @@ CLAIMED = {
             "WannierData.to_npz and from_npz; that equals() compares what the subclass adds. Does not decide printed precision.",
             "Trusted: Python ast, E0 index.",
             "DESIGN.md §3 C19"),
+    "C13": ("exact stencil extraction (slice offsets + polynomial normal form) compared with finite-difference stencils solved "
+            "over Fraction; structural rules on the accumulation ladder and the half-open band-group convention",
+            "other",
+            "Decides that the fder=1,2,3 calculators are by construction the 1st/2nd/3rd central finite differences of the "
+            "Fermi-sea accumulation with the same formula (exact coefficient comparison, matching number of extra Fermi levels), "
+            "that a group at energy E is accumulated into all levels >= E, that k-resolved and summed paths differ only by the "
+            "result index and 1/nk, and that band groups are half-open [ib1, ib2) in the selection weight, the below-range "
+            "count and the sea completion. Does not decide monotonicity/limits of CumDOS numerically.",
+            "Trusted: Python ast, E3 algebra, Gaussian elimination over Fraction for the reference stencils.",
+            "DESIGN.md §3 C13"),
     "C14": ("exact rational-function identities (AST -> polynomial normal form over Fraction) for every region expression of "
             "weights_tetra; def-use argument for corner-order independence; structural rules on the 12-tetrahedra split, "
             "sea completion and cache key",
